@@ -133,6 +133,10 @@ func withWatchdog(f func() string) string {
 var generators = map[string]func(*Ctx){}
 
 func main() {
+	if len(os.Args) == 4 && os.Args[1] == "mkhist" {
+		mkhist(os.Args[2], os.Args[3])
+		return
+	}
 	if len(os.Args) == 4 && os.Args[1] == "replay" {
 		replayFile(os.Args[2], os.Args[3])
 		return
